@@ -12,7 +12,7 @@
    multiplication): rn with any positive weighting, uniform_discr, product
    spaces are instances (Instances.v, Lists.v). *)
 From Coq Require Import Reals List Bool.
-From Verif Require Import Base.Num Base.Vec C09.Model C09.IPS C09.Proofs C09.Instances C09.Lists C09.Pointwise C09.Matrix C09.Product C09.Moreau C09.KL C09.Radial.
+From Verif Require Import Base.Num Base.Vec C09.Model C09.IPS C09.Proofs C09.Instances C09.Lists C09.Pointwise C09.Matrix C09.Product C09.Moreau C09.KL C09.Radial C09.NumGrad.
 Local Open Scope R_scope.
 
 (* T1 (gradient rules, all trees).  For every expression tree, of any depth and
@@ -260,6 +260,29 @@ Theorem kl_cross_entropy_convex_conj_sound : forall (n : nat) (w : Vn n), Forall
   leaf_sound (sleaf_sep n w klcecc_phi klcecc_dphi g) x.
 Proof. exact klcecc_sound. Qed.
 Print Assumptions kl_cross_entropy_sound.
+
+(* NumericalGradient (derivatives.py; [numgrad] is tied to the code by its own
+   correspondence case set).  FULL STATEMENT of the property for it,
+     numgrad sqrt w e NGCentral h x = gradient e x   on every weighted list space
+   (for the quadratic L2NormSquared the central difference is exact), is FALSE of the
+   faithful model (open finding numericalgradient-weighted-space): what it computes
+   is, entry by entry, w_i times the gradient. *)
+Theorem numericalgradient_is_weight_times_gradient : forall (w x : list R) (h : R) (i : nat),
+  length x = length w -> (i < length w)%nat -> h <> 0 ->
+  nth i (numgrad sqrt w (FLeaf (leaf_l2sq (wspace sqrt w))) NGCentral h x) 0
+  = nth i w 0 * nth i (gradient (FLeaf (leaf_l2sq (wspace sqrt w))) x) 0.
+Proof. exact numgrad_central_l2sq. Qed.
+Theorem numericalgradient_weighted_refuted :
+  exists (w x : list R) (h : R), Forall (fun a => 0 < a) w /\ length x = length w /\ h <> 0 /\
+    numgrad sqrt w (FLeaf (leaf_l2sq (wspace sqrt w))) NGCentral h x
+    <> gradient (FLeaf (leaf_l2sq (wspace sqrt w))) x.
+Proof. exact numgrad_weighted_refuted. Qed.
+Theorem numericalgradient_unweighted_partial : forall (w x : list R) (h : R) (i : nat),
+  Forall (fun a => a = 1) w -> length x = length w -> (i < length w)%nat -> h <> 0 ->
+  nth i (numgrad sqrt w (FLeaf (leaf_l2sq (wspace sqrt w))) NGCentral h x) 0
+  = nth i (gradient (FLeaf (leaf_l2sq (wspace sqrt w))) x) 0.
+Proof. exact numgrad_unweighted_partial. Qed.
+Print Assumptions numericalgradient_weighted_refuted.
 
 (* Non-vacuity: rn(1, weighting=w) satisfies the laws for every w > 0, and a
    tree using all eleven constructors satisfies every premise at every point. *)
